@@ -345,6 +345,8 @@ func c16TrackLists(tier string) [][]trackSpec {
 		{{Kind: "opus", Name: "Deutsch", Lang: "de"}},
 		{{Kind: "aac44", Name: "English"}, {Kind: "aac48", Lang: "fr"}},
 		{{Kind: "aac44"}, {Kind: "opus", Name: "b", Lang: "it"}, {Kind: "aac48", Name: "c"}},
+		// names a quoted-string carries verbatim: a backslash, non-ASCII letters and spaces (U+3000, U+00A0), separators
+		{{Kind: "aac44", Name: "Stereo \\ Commentary", Lang: "en-US"}, {Kind: "opus", Name: "日本語\u3000解説", Lang: "ja"}, {Kind: "aac48", Name: "a b\u00a0c, d=e;#é", Lang: "x-klingon"}},
 	}
 	for vi, v := range videos {
 		for ai, al := range audios {
